@@ -121,7 +121,11 @@ def analyze(argv):
     fn = getattr(mod, fname)
     extra = [f[4:] for f in flags if f.startswith('pre=')]
     twin = 'twin' in flags
-    target = load_variant(modname, fn, extra, twin) if (extra or twin) else fn
+    if extra or twin:
+        target = load_variant(modname, fn, extra, twin)
+        # (shim S12 makes sure the inner call's own docstring contract is not enforced)
+    else:
+        target = fn
     opts = AnalysisOptionSet(per_condition_timeout=cond_to, per_path_timeout=path_to, report_all=True,
                              max_uninteresting_iterations=sys.maxsize)
     msgs = list(run_checkables(analyze_function(target, opts)))
